@@ -11,6 +11,7 @@ import (
 
 	"google.golang.org/genproto/googleapis/api/annotations"
 	"google.golang.org/grpc"
+	"google.golang.org/grpc/metadata"
 	"google.golang.org/protobuf/reflect/protoreflect"
 	"google.golang.org/protobuf/reflect/protoregistry"
 )
@@ -199,15 +200,16 @@ func (w *fakeRW) trailer(key string) ([]string, bool) {
 
 // vfServer is the application: it records what it receives and replies as scripted.
 type vfServer struct {
-	in       *fakeMD
-	out      *fakeMD
-	got      []*fakeMsg // requests received
-	reply    *fakeMsg
-	err      error
-	calls    int
-	setHdr   map[string][]string // metadata the handler sets as header
-	setTrail map[string][]string // and as trailer
-	ctxSeen  context.Context
+	in           *fakeMD
+	out          *fakeMD
+	got          []*fakeMsg // requests received
+	reply        *fakeMsg
+	err          error
+	calls        int
+	setHdr       map[string][]string // metadata the handler sets as header
+	setTrail     map[string][]string // and as trailer
+	ctxSeen      context.Context
+	sendHdrFirst bool // call grpc.SendHeader before returning
 }
 
 func (s *vfServer) unary(ctx context.Context, req *fakeMsg) (interface{}, error) {
@@ -219,6 +221,9 @@ func (s *vfServer) unary(ctx context.Context, req *fakeMsg) (interface{}, error)
 	}
 	if s.setTrail != nil {
 		grpc.SetTrailer(ctx, s.setTrail)
+	}
+	if s.sendHdrFirst {
+		grpc.SendHeader(ctx, metadata.MD{"x-sent": []string{"1"}})
 	}
 	if s.err != nil {
 		return nil, s.err
